@@ -181,6 +181,22 @@ func kindGrid(progs []*c19Prog, baseSeed uint64) []*Scenario {
 			}
 		}
 	}
+	for _, fs := range []string{"ramfs", "tmpfs_small", "tmpfs_full", "tmpfs_noinodes"} {
+		for _, dk := range []string{"absent", "longer", "shorter"} {
+			fs, dk := fs, dk
+			mk(flat, func(s *Scenario) { s.Fs, s.DstKind = fs, dk })
+			mk(coff, func(s *Scenario) { s.Fs, s.DstKind = fs, dk })
+		}
+		fs := fs
+		mk(flat, func(s *Scenario) { s.Fs, s.Uid = fs, nobody })
+	}
+	for _, fd := range []string{"devfd", "procfd"} {
+		for _, dk := range []string{"absent", "longer"} {
+			fd, dk := fd, dk
+			mk(flat, func(s *Scenario) { s.DstFd, s.DstKind = fd, dk })
+			mk(coff, func(s *Scenario) { s.DstFd, s.DstKind = fd, dk })
+		}
+	}
 	mk(flat, func(s *Scenario) { s.Stdin = "closed" })
 	mk(flat, func(s *Scenario) { s.Cwd = "readonly"; s.Uid = nobody })
 	mk(flat, func(s *Scenario) { s.Cwd = "root" })
@@ -273,6 +289,22 @@ func (c *c19Ctx) genScenario(seed uint64, progs []*c19Prog) *Scenario {
 		s.Argv0 = pick(r, []string{"nask", "gosk-2.0", "as"})
 	}
 	s.SrcMtime = int64(r.Intn(2000000000)) + 1
+	plainDst := false
+	switch s.DstKind {
+	case "absent", "", "empty", "shorter", "equal", "longer", "old_image":
+		plainDst = true
+	}
+	if plainDst && r.Chance(1, 25) {
+		s.DstFd = pick(r, []string{"devfd", "procfd"})
+	}
+	if plainDst && r.Chance(1, 15) {
+		s.Fs = pick(r, []string{"ramfs", "tmpfs_small", "tmpfs_full", "tmpfs_noinodes"})
+		if s.Fs == "tmpfs_full" || s.Fs == "tmpfs_noinodes" {
+			if s.Shape != "src-dst" && s.Shape != "d-src-dst" {
+				s.Shape, s.LstKind = "src-dst", ""
+			}
+		}
+	}
 	if s.SrcKind != "stdin" && r.Chance(1, 12) { // (with fd 0 closed /dev/stdin is whatever the runtime reopened there: not a source)
 		s.Stdin = "closed"
 	}
@@ -293,7 +325,7 @@ func (c *c19Ctx) genScenario(seed uint64, progs []*c19Prog) *Scenario {
 			s.SrcKind = "file"
 		}
 	}
-	if r.Chance(3, 10) && (s.Shape == "src-dst" || s.Shape == "src-dst-lst" || s.Shape == "d-src-dst") && s.SrcKind != "fifo" && s.SrcKind != "stdin" {
+	if r.Chance(3, 10) && (s.Shape == "src-dst" || s.Shape == "src-dst-lst" || s.Shape == "d-src-dst") && s.SrcKind != "fifo" && s.SrcKind != "stdin" && s.DstFd == "" && s.Fs != "tmpfs_full" && s.Fs != "tmpfs_noinodes" {
 		_, plain := s.materialise()
 		_, img := c.imageOf(plain)
 		switch r.weighted([]int{35, 10, 55}) {
@@ -650,6 +682,22 @@ func runC19(tierName string) int {
 		A.shapes[s.Shape]++
 		A.encs[s.Enc]++
 		A.expectPins[strings.SplitN(o.Expect, " ", 2)[0]]++
+		if s.Fs != "" {
+			if o.FsMounted == "true" {
+				A.probes["fs_mounted:"+s.Fs]++
+				if s.Fs == "tmpfs_full" || s.Fs == "tmpfs_noinodes" {
+					A.faultsPlanned["fs:"+s.Fs]++
+					if o.FaultFired > 0 && s.Fault == nil {
+						A.faultsFired["fs:"+s.Fs]++
+					}
+				}
+			} else {
+				A.probes["fs_mount_unavailable"]++
+			}
+		}
+		if s.DstFd != "" {
+			A.probes["dst_named_by_descriptor"]++
+		}
 		if s.Fault != nil {
 			fk := s.Fault.Kind
 			if fk == "strace" {
@@ -678,11 +726,11 @@ func runC19(tierName string) int {
 			} else if s.Fault.Kind == "strace" {
 				A.faultMiss++
 			}
-			if o.HealExit != nil {
-				A.healRuns++
-				if *o.HealExit == 0 {
-					A.healOK++
-				}
+		}
+		if o.HealExit != nil {
+			A.healRuns++
+			if *o.HealExit == 0 {
+				A.healOK++
 			}
 		}
 		if strings.HasPrefix(o.Expect, "nonzero+pos") {
